@@ -79,6 +79,19 @@ def run(prop, tier, replay):
     finally:
         shutil.rmtree(d, ignore_errors=True)
 
+    # C11 with history: interleaved reads/writes through mirrored addresses and direct array stores
+    if prop == "C11":
+        from vlib import record_and_validate
+        nchunks, per = (4, 2500) if tier == "quick" else (8, 20000)
+        nev_s, bads_s, samples_s = record_and_validate(ck, vh, ["sysseq", "record"], "SystemTrace", "SystemTrace.cfg", "sys.ndjson", nchunks, per)
+        for b in bads_s:
+            ev = b["ev"]
+            ck.violation("mirror sequence chunk %d line %d: bus %s at $%06X %s %d but the cell LoROM designates (%s) holds another value" % (
+                b["chunk"], b["line"], ev["k"], ev.get("a", 0), "returned" if ev["k"] == "rd" else "shows", ev["v"], b.get("cell")), b)
+        for e in samples_s[:5]:
+            ck.sample(e)
+        ck.add_part("mirror-coherence sequences (SystemTrace.tla)", kind="tlc-trace", events=nev_s, groups=nchunks * per)
+
     bads = r3.json_prints("BAD")
     mine = [b for b in bads if b["prop"] == prop]
     for b in mine:
